@@ -300,6 +300,54 @@ let run_case (line : string) =
        Buffer.add_string b ",\"rewritten\":";
        (match rewritten_config g proj with None -> Buffer.add_string b "null" | Some o -> js_o o);
        Buffer.add_string b "}"
+   | "CLI" ->
+       (* CLI <files> <cfgs> <global> <dirs> <ops>; the answer lists the reports and the final world
+          at every path the case mentions *)
+       let opt_int () = if next_int () <> 0 then Some (z_of_z (ZA.of_int (next_int ()))) else None in
+       let opt_bool () = if next_int () <> 0 then Some (next_int () <> 0) else None in
+       let next_yaml () =
+         let a = opt_int () in let b1 = opt_bool () in let c = opt_bool () in let d = opt_bool () in let e = opt_bool () in
+         { y_stack_limit = a; y_include_comments = b1; y_flipper_commands = c; y_supress = d; y_use_project = e } in
+       let files = next_list (fun () -> let p = next_path () in let c = next_str () in (p, c)) in
+       let cfgs = next_list (fun () -> let p = next_path () in let y = next_yaml () in (p, y)) in
+       let glob = if next_int () <> 0 then Some (next_yaml ()) else None in
+       let dirs = next_list next_path in
+       let ops = next_list (fun () ->
+         match next () with
+         | "C" -> let f = next_path () in let o = next_path () in let l = opt_int () in let c = opt_bool () in OpCompile (f, o, l, c)
+         | "N" -> let d = next_path () in let n = next_str () in OpNew (d, n)
+         | t -> failwith ("bad op " ^ t)) in
+       let w0 = { w_files = (fun p -> List.assoc_opt p files); w_cfg = (fun p -> List.assoc_opt p cfgs);
+                  w_global = glob; w_dirs = dirs } in
+       let (w, reps) = cli_run fops w0 ops in
+       let fpaths = List.sort_uniq compare (List.map fst files @ List.concat_map (fun o ->
+         match o with OpCompile (_, out, _, _) -> [out]
+                    | OpNew (d, n) -> [child d (normalise_name n) @ [main_name]]) ops) in
+       let cpaths = List.sort_uniq compare (List.map fst cfgs @ List.concat_map (fun o ->
+         match o with OpCompile (f, _, _, _) -> [parent f]
+                    | OpNew (d, n) -> [child d (normalise_name n)]) ops) in
+       let js_yaml (y : yaml_opts) =
+         Buffer.add_char b '['; js_opt js_z y.y_stack_limit;
+         List.iter (fun x -> Buffer.add_char b ','; js_opt (fun v -> Buffer.add_string b (if v then "true" else "false")) x)
+           [y.y_include_comments; y.y_flipper_commands; y.y_supress; y.y_use_project];
+         Buffer.add_char b ']' in
+       let js_nat (n : nat) = let rec go (n : nat) acc = match n with O -> acc | S m -> go m (acc + 1) in
+         Buffer.add_string b (string_of_int (go n 0)) in
+       Buffer.add_string b "{\"status\":\"OK\",\"reports\":";
+       js_list (fun r -> match r with
+         | RSuccess n -> Buffer.add_string b "[\"success\","; js_nat n; Buffer.add_char b ']'
+         | RError (e, n) -> Buffer.add_string b "[\"error\",\""; Buffer.add_string b (errname e); Buffer.add_string b "\","; js_nat n; Buffer.add_char b ']'
+         | RMissingFile -> Buffer.add_string b "[\"missing\"]"
+         | RRaised -> Buffer.add_string b "[\"raised\"]"
+         | RNewCreated -> Buffer.add_string b "[\"created\"]"
+         | RNewRefused -> Buffer.add_string b "[\"refused\"]") reps;
+       Buffer.add_string b ",\"files\":";
+       js_list (fun p -> Buffer.add_char b '['; js_path p; Buffer.add_char b ','; js_opt js_str (w.w_files p); Buffer.add_char b ']') fpaths;
+       Buffer.add_string b ",\"cfgs\":";
+       js_list (fun p -> Buffer.add_char b '['; js_path p; Buffer.add_char b ','; js_opt js_yaml (w.w_cfg p); Buffer.add_char b ']') cpaths;
+       Buffer.add_string b ",\"global\":"; js_opt js_yaml w.w_global;
+       Buffer.add_string b ",\"dirs\":"; js_list js_path w.w_dirs;
+       Buffer.add_string b "}"
    | "ISVAR" ->
        let s = next_str () in
        let c = next_int () <> 0 in
